@@ -26,6 +26,7 @@ EXPLANATION = (
     "ran_concurrently's orientation and the pruning of stop times are checked by def-use. Decides these clauses, not "
     "the race windows themselves."
     ' Also: R-C03-9 the comparison after a command uses the hashes verified when the run started (stored on every path that lets the command start, never overridden, not filtered by the current state), amended inputs get their baseline when the request is accepted, read after the promoted hash jobs.'
+    ' R-C03-11 the declared-again mechanism (R-C12-10): no verdict of a command or check is applied to a row that was re-created meanwhile.'
 )
 ASSUMPTIONS = ["single-threaded event loop: a region without await is atomic", "SHA-256 collision resistance (C13)"]
 
@@ -555,7 +556,7 @@ def rule_three_predicates(ctx):
 
 
 RULES = [
-    Rule("R-C03-11", "the verdict of a command or check says nothing about a step that was declared again meanwhile: it is dropped in the transaction that would apply it", C12.rule_redeclared_running_step, min_instances=22),
+    Rule("R-C03-11", "the verdict of a command or check says nothing about a step that was declared again meanwhile: it is dropped in the transaction that would apply it", C12.rule_redeclared_running_step, min_instances=24),
     Rule("R-C03-10", "the re-hash before and after a command trusts a recorded digest only when the full stat signature is unchanged", C13.rule_stat_shortcut, min_instances=4),
     Rule("R-C03-1", "one shared definition of 'blocked input'", rule_shared_predicate, min_instances=4),
     Rule("R-C03-2", "the predicate means what the property says", rule_predicate_meaning, min_instances=3),
